@@ -1,10 +1,13 @@
 (** Property C01: parsing is total.  Only pinned statements; proofs live in ParseProofs/
     (Invariant.v: the token loop of one level; Totality.v: recursion over the command tree;
     ValidateTotal.v: the validator; TotalityMain.v: assembly). *)
+From Coq Require Import String.   (* first, so that List's names (length, ++) stay the visible ones *)
 From ClapModel Require Import Base.Bytes Base.Machine Base.Utf8.
 From ClapModel Require Import Parse.Cmd Parse.Build Parse.Valid Parse.Matcher Parse.Errors Parse.Validator Parse.Parser.
 From ClapModel Require Import ParseProofs.Safe ParseProofs.Invariant ParseProofs.Totality
-                              ParseProofs.ValidateTotal ParseProofs.Relations ParseProofs.TotalityMain.
+                              ParseProofs.ValidateTotal ParseProofs.Relations ParseProofs.TotalityMain
+                              ParseProofs.Sites.
+From ClapModel Require Gen.ParseSites.
 From Coq Require Import ZArith.
 From RecordUpdate Require Import RecordSet.
 Import RecordSetNotations.
@@ -88,3 +91,46 @@ Proof.
   intros [b|]; vm_compute; reflexivity.
 Qed.
 Print Assumptions C01_hypotheses_satisfiable.
+
+(** ---------- round 2 (1): the panic sites of the parse path, tied to the Rust source ----------
+    [Gen.ParseSites.parse_sites] is regenerated from /repo on every run (translators/parse_sites.py: every
+    unwrap() / expect( / unreachable! / panic! / (debug_)assert*! / index expression / binary minus / assert_app( of
+    parser.rs, arg_matcher.rs, matched_arg.rs, validator.rs and the parse-reachable functions of command.rs, keyed
+    by (file, enclosing fn, kind, ordinal within the fn)).  The model-side table [model_site_table] (ParseProofs/Sites.v)
+    has one row per source site, in source order: a new panic site on the parse path breaks this theorem. *)
+Theorem C01_sites_match : map fst model_site_table = Gen.ParseSites.parse_sites.
+Proof. exact sites_match. Qed.
+Print Assumptions C01_sites_match.
+
+(** every row [Modelled l]: each number in [l] is an [RPanic]/[VPanic] site of the model and is never the
+    outcome of parsing, for every plain valid definition and every token list *)
+Theorem C01_sites_dead : forall c0 toks, plain c0 = true -> valid c0 = true ->
+  forall n, In n modelled_sites -> do_parse c0 toks <> OPanicked n.
+Proof. exact sites_dead. Qed.
+Print Assumptions C01_sites_dead.
+
+(** every row [Proved P why]: the statement [P] (about the model, for ALL commands and inputs) that makes the
+    site dead holds *)
+Theorem C01_sites_proved : forall k P w, In (k, Proved P w) model_site_table -> P.
+Proof. exact sites_proved. Qed.
+Print Assumptions C01_sites_proved.
+
+(** the rows that are neither: justified by reasoning local to the Rust function (string in the table).  Their
+    keys are pinned here, so that classifying a new site as "reasoned" is a visible, deliberate change. *)
+Theorem C01_sites_reasoned_rows :
+  map fst (filter (fun p => match snd p with Reasoned _ => true | _ => false end) model_site_table)
+  = [ ("parser/parser.rs", "Parser::parse", "unreachable!", 0);
+      ("parser/parser.rs", "Parser::parse", "unreachable!", 4);
+      ("parser/parser.rs", "Parser::parse", "debug_assert_eq!", 0);
+      ("parser/parser.rs", "Parser::did_you_mean_error", "index", 0);
+      ("parser/arg_matcher.rs", "ArgMatcher::start_custom_arg", "debug_assert_eq!", 0);
+      ("parser/arg_matcher.rs", "ArgMatcher::start_custom_group", "debug_assert_eq!", 0);
+      ("parser/arg_matcher.rs", "ArgMatcher::start_occurrence_of_external", "debug_assert_eq!", 0);
+      ("parser/arg_matcher.rs", "ArgMatcher::start_occurrence_of_external", "expect", 0);
+      ("parser/matches/matched_arg.rs", "MatchedArg::new_external", "expect", 0);
+      ("parser/validator.rs", "Validator::missing_required_error", "debug_assert!", 0);
+      ("builder/command.rs", "Command::_build_subcommand", "unwrap", 0);
+      ("builder/command.rs", "Command::_build_subcommand", "unwrap", 1);
+      ("builder/command.rs", "Command::format_group", "unwrap", 0) ]%string.
+Proof. exact sites_reasoned_rows. Qed.
+Print Assumptions C01_sites_reasoned_rows.
